@@ -118,3 +118,21 @@ package container
 //@ requires [inv] RegInv(self)
 //@ assigns nothing
 //@ ensures [reports-mark] result == self.IC[name]
+
+// ---- start-up phases as seen by the application (C09, C13) -----------------------------------------------
+// PrepareComponents and Refresh may change any container state; a failure is recorded in the ghost trace; no runner
+// is invoked by them; Refresh sets Refreshed exactly when it succeeds.
+
+//@ method (Factory).PrepareComponents
+//@ property C13 C09
+//@ assigns everything
+//@ ensures [failure-recorded] Failed == (old(Failed) || result != nil)
+//@ ensures [no-runner] RanLen == old(RanLen) && RanAt == old(RanAt) && RanSrc == old(RanSrc)
+//@ ensures [not-refreshed] Refreshed == old(Refreshed)
+
+//@ method (Factory).Refresh
+//@ property C13 C09
+//@ assigns everything
+//@ ensures [failure-recorded] Failed == (old(Failed) || result != nil)
+//@ ensures [no-runner] RanLen == old(RanLen) && RanAt == old(RanAt) && RanSrc == old(RanSrc)
+//@ ensures [refreshed-iff-ok] Refreshed == (old(Refreshed) || result == nil)
